@@ -787,6 +787,43 @@ impl<'tcx> Cx<'tcx> {
 
 // ------------------------------------------------------------------ export
 
+/// every path through public modules / public re-exports under which a type-like item of this crate can be named from outside:
+/// [{"public": "ops::TypedDrain", "def": "any_vec_typed::TypedDrain"}]
+fn public_paths<'tcx>(tcx: TyCtxt<'tcx>, cx: &Cx<'tcx>) -> J {
+    use rustc_hir::def::Res;
+    let mut out = Vec::new();
+    let mut work: Vec<(rustc_hir::def_id::LocalDefId, String, u32)> = vec![(rustc_hir::def_id::CRATE_DEF_ID, String::new(), 0)];
+    let mut seen = std::collections::HashSet::new();
+    while let Some((m, prefix, depth)) = work.pop() {
+        if depth > 6 || !seen.insert((m, prefix.clone())) {
+            continue;
+        }
+        for ch in tcx.module_children_local(m) {
+            if !ch.vis.is_public() {
+                continue;
+            }
+            let name = ch.ident.name.to_string();
+            let path = if prefix.is_empty() { name.clone() } else { format!("{}::{}", prefix, name) };
+            if let Res::Def(kind, did) = ch.res {
+                match kind {
+                    DefKind::Mod => {
+                        if let Some(l) = did.as_local() {
+                            work.push((l, path, depth + 1));
+                        }
+                    }
+                    DefKind::Struct | DefKind::Enum | DefKind::Union | DefKind::Trait | DefKind::TyAlias => {
+                        if did.is_local() {
+                            out.push(J::Obj(vec![("public", s(path)), ("def", s(cx.path(did)))]));
+                        }
+                    }
+                    _ => {}
+                }
+            }
+        }
+    }
+    J::Arr(out)
+}
+
 fn export<'tcx>(tcx: TyCtxt<'tcx>) -> J {
     let cx = Cx { tcx };
     let mut fns = Vec::new();
@@ -1094,6 +1131,7 @@ fn export<'tcx>(tcx: TyCtxt<'tcx>) -> J {
         ("traits", J::Arr(traits)),
         ("aliases", J::Arr(aliases)),
         ("api", J::Arr(api)),
+        ("public_paths", public_paths(tcx, &cx)),
     ])
 }
 
